@@ -195,6 +195,12 @@ func (c *conn) OnClosed(fn func()) (unsub func(), _ bool) {
 	// Add listener
 	id := c.addClosed(fn1)
 	if id == 0 {
+		// The connection is closed, but the listener could have been visible to
+		// the notification for a moment. Report success if it has already run,
+		// otherwise make sure it never runs.
+		if ran := !called.CompareAndSwap(false, true); ran {
+			return func() {}, true
+		}
 		return nil, false
 	}
 
